@@ -1,5 +1,6 @@
 import StoneVerif.Lemmas.FeParams
 import StoneVerif.Lemmas.FeNames
+import StoneVerif.Lemmas.CliReport
 /-!
 # C03 — arbitrary text ends in an API description or a spec error: the proved part
 
@@ -12,6 +13,12 @@ Both statements are full strength since the crash sites the first version of the
 min_items="a")`; a name clash that involves an annotation; a definition named like a built-in type, a route or an
 annotation type) were repaired in the code: the former witnesses are kept as regression statements of the new
 behaviour.
+
+The last sentence of the property ("the command line always answers a bad spec with `path:line: error: message`") is
+proved for the format operation that the `except InvalidSpec` handler of `stone.cli.main` holds - the translator copies
+it from the handler as data, `Model/CliReport.lean` interprets Python's `str.format` / `%` on it with their partiality
+explicit - for every value the three fields of an `InvalidSpec` can take (`cli_answers_spec_error`).  That the handler
+is reached with exactly those values is tested (`fe.report`), not proved.
 -/
 namespace StoneVerif.C03
 open StoneVerif.FeParams StoneVerif.FeNames
@@ -61,5 +68,50 @@ theorem taken_name_refused :
     register [⟨"a".toList, [⟨.route 1, "r".toList⟩, ⟨.type, "r".toList⟩]⟩] = .error (.specerr .symbolDefined) ∧
     register [⟨"a".toList, [⟨.annotationType, "T".toList⟩, ⟨.type, "T".toList⟩]⟩] = .error (.specerr .symbolDefined) :=
   ⟨FeNames.route_then_type_refused, FeNames.annotation_type_then_same_name_refused⟩
+
+/-! ## The command line's answer to a spec error -/
+
+/-- For every `InvalidSpec` - with or without a path, with or without a line - the format operation of the handler in
+`stone.cli.main` (`Tables.cliSpecErrorStyle / Template / Fields`) raises nothing and yields `path:line: error: message`. -/
+theorem cli_answers_spec_error (e : CliReport.SpecErr) :
+    ∃ out, CliReport.cliAnswer e = .ok out ∧ CliReport.Answers out e := by
+  refine ⟨_, CliReport.cliAnswer_eq e, CliReport.pyStr (CliReport.pathVal e), CliReport.pyStr (CliReport.lineVal e), rfl, ?_, ?_⟩
+  · intro p hp; simp [CliReport.pathVal, hp]
+  · intro l hl; simp [CliReport.lineVal, hl, CliReport.pyStr]
+
+/-- ... in particular no exception escapes the handler, whatever the fields hold. -/
+theorem cli_answer_no_crash (e : CliReport.SpecErr) : ∀ x, CliReport.cliAnswer e ≠ .error (.crash x) := by
+  intro x h
+  rw [CliReport.cliAnswer_eq] at h
+  cases h
+
+/-- the answer goes to stderr and the handler ends with `sys.exit(1)` -/
+theorem cli_spec_error_status : Tables.cliSpecErrorExit = 1 ∧ Tables.cliSpecErrorStream = "sys.stderr" := by
+  decide +kernel
+
+/-- Why `str.format` with `{}` fields is safe here whatever the template: it does not look at the kind of a value
+(whether it raises depends on the template and the number of arguments only), so a line or a path that is `None`
+cannot make a difference. -/
+theorem format_style_kind_blind (t : List Char) (as bs : List CliReport.PyVal) (h : as.length = bs.length) :
+    (CliReport.runFormat t as).isOk = (CliReport.runFormat t bs).isOk :=
+  CliReport.runFormat_kind_blind t as bs h
+
+/-- non-vacuity: errors without a line (the text ends where the grammar needs more), without line and path (nesting
+beyond the recursion limit) and with both -/
+example : CliReport.cliAnswer ⟨some "a.stone".toList, none, "Unexpected end of file.".toList⟩
+    = .ok "a.stone:None: error: Unexpected end of file.".toList := by decide +kernel
+example : CliReport.cliAnswer ⟨none, none, "The specs nest too deeply.".toList⟩
+    = .ok "None:None: error: The specs nest too deeply.".toList := by decide +kernel
+example : CliReport.cliAnswer ⟨some "a.stone".toList, some 3, "Symbol 'X' is undefined.".toList⟩
+    = .ok "a.stone:3: error: Symbol 'X' is undefined.".toList := by decide +kernel
+
+/-- the model can fail: the `%` operation is not kind blind - `%d` of a line that is `None` is a TypeError, and
+`cli_answers_spec_error` would be false of a handler that holds it -/
+example : CliReport.run "percent" "%s:%d: error: %s".toList [.str "a.stone".toList, .none, .str "m".toList]
+    = .error (.crash .typeError) := by decide +kernel
+example : CliReport.run "percent" "%s:%d: error: %s".toList [.str "a".toList, .int 3, .str "m".toList]
+    = .ok "a:3: error: m".toList := by decide +kernel
+example : CliReport.run "format" "{}:{}: error: {}".toList [.str "a".toList, .none] = .error (.crash .indexError) := by
+  decide +kernel
 
 end StoneVerif.C03
